@@ -183,6 +183,93 @@ static void case_by3(ByteSource& in, CaseInfo& ci) {
   if (c == 0) ci.label("by3:exact");
 }
 
+// ---- internal division routines declared in mpir.h, called directly ----------------------------------------------
+// (anchors: mpn/generic/{sb,dc,inv}_div_{q,qr}.c, *_divappr_q.c, *_bdiv_*.c, invert.c).  Domains are those of the tree's own tests
+// tests/mpn/t-{sb,dc,inv}_*.c: normalised divisor, dn >= 3 (sb) / 6 (dc, inv), nn >= dn (sb) / dn+3 (dc, inv), nn = 2dn for the _n forms;
+// Hensel forms: odd divisor, dinv = d^-1 mod B.  The public dispatch reaches each of them only in its own size window; called directly
+// they see every operand class at every size.  Oracles: floor quotient and remainder (refint); approximate quotients: floor(n/d) or one more (the contract
+// stated in the sources); Hensel: q*d = n mod B^qn and the documented remainder/borrow; mpn_invert: B^n + x = floor((B^2n-1)/a).
+static uint64_t pi1_inverse(const Limbs& d) {   // floor((B^3-1)/(d1*B+d0)) - B, the definition of the "3/2" inverse
+  size_t dn = d.size(); uint64_t two[2] = {d[dn - 2], d[dn - 1]}; Int D2 = Int::from_limbs(two, 2);
+  Int v = ref::tdiv(ref::pow2(192) - Int(1), D2) - ref::pow2(64); return v.low();
+}
+static uint64_t limb_inverse(uint64_t d) { uint64_t x = d; for (int i = 0; i < 6; i++) x *= 2 - d * x; return x; }   // d odd
+static Int low_limbs(const Int& a, size_t k) { return Int::from_limbs(a.m.data(), std::min(k, a.m.size())); }
+static void case_internal(ByteSource& in, CaseInfo& ci) {
+  unsigned fam = in.pick({3, 4, 4, 3, 1});   // sb, dc, inv, Hensel, mpn_invert
+  size_t cap = nn_cap(in.scale);
+  if (fam == 4) {
+    size_t n = size_near(in, 1, std::max<size_t>(1, std::min<size_t>(cap / 2, 2600)), {INV_DIV_QR_THRESHOLD, 2, 3, 4, 8, 16, 32, 64, 128});
+    Limbs a = limbs(in, n); a[n - 1] |= 0x8000000000000000ull; if (in.chance(30)) { a.assign(n, 0); a[n - 1] = 0x8000000000000000ull; } if (in.chance(30)) a.assign(n, ~0ull);
+    ci.label("internal:mpn_invert"); ci.nontrivial = n >= 2; ci.d("mpn_invert n=%zu ", n); DESC(ci, "a=" + show(a, 64));
+    Guarded x(n); Limbs a0 = a; mpn_invert(x.p(), a.data(), (mp_size_t)n);
+    REQUIRE(x.intact(), "mpn_invert(n=%zu): wrote outside the result", n); REQUIRE(a == a0, "mpn_invert: source modified");
+    Int A = Int::from_limbs(a.data(), n), E = ref::tdiv(ref::pow2(128 * n) - Int(1), A) - ref::pow2(64 * n);
+    REQUIRE(Int::from_limbs(x.p(), n) == E, "mpn_invert(n=%zu): result is not floor((B^2n-1)/a) - B^n", n);
+    return;
+  }
+  if (fam == 3) {   // Hensel
+    unsigned f = in.pick({2, 3, 2, 3});   // sb_bdiv_q, dc_bdiv_q, sb_bdiv_qr, dc_bdiv_qr
+    static const char* nm[] = {"mpn_sb_bdiv_q", "mpn_dc_bdiv_q", "mpn_sb_bdiv_qr", "mpn_dc_bdiv_qr"};
+    bool sb = f == 0 || f == 2, qr = f >= 2;
+    size_t dn = sb ? (size_t)in.range(3, std::min<size_t>(std::max<size_t>(cap / 2, 3), 70)) : size_near(in, f == 1 ? 6 : 3, std::max<size_t>(6, std::min<size_t>(cap / 2, 700)), {DC_BDIV_Q_THRESHOLD, DC_BDIV_QR_THRESHOLD, 2 * DC_BDIV_Q_THRESHOLD});
+    size_t extra = in.pick({2, 2, 1}) == 0 ? (size_t)in.range(0, 6) : in.flag() ? (size_t)in.logrange(0, std::min<size_t>(sb ? 200 : 1500, std::max<size_t>(cap, 8))) : dn * (size_t)in.range(1, 5) + (size_t)in.range(0, 3);
+    if (!sb && extra > 1500) extra = 1500; if (sb && extra > 200) extra = 200;
+    size_t nn = dn + extra; if (qr && nn == dn) nn++;
+    Limbs d = limbs(in, dn), n = limbs(in, nn); d[0] |= 1; if (in.chance(40)) for (size_t i = (size_t)in.range(0, nn - 1); i < nn; i++) n[i] = in.flag() ? 0 : ~0ull;
+    uint64_t dinv = limb_inverse(d[0]); Int N = Int::from_limbs(n.data(), nn), D = Int::from_limbs(d.data(), dn);
+    ci.label("internal:hensel"); ci.label(nm[f]); ci.nontrivial = true; ci.d("%s nn=%zu dn=%zu ", nm[f], nn, dn); DESC(ci, "n=" + show(n, 64) + " d=" + show(d, 64));
+    Limbs d0 = d; Guarded np(nn); memcpy(np.p(), n.data(), nn * 8);
+    if (!qr) {
+      Guarded q(nn), w(2);
+      if (f == 0) mpn_sb_bdiv_q(q.p(), w.p(), np.p(), (mp_size_t)nn, d.data(), (mp_size_t)dn, dinv); else mpn_dc_bdiv_q(q.p(), np.p(), (mp_size_t)nn, d.data(), (mp_size_t)dn, dinv);
+      REQUIRE(q.intact() && np.intact() && w.intact(), "%s(nn=%zu,dn=%zu): wrote outside its areas", nm[f], nn, dn); REQUIRE(d == d0, "%s: divisor modified", nm[f]);
+      Int Q = Int::from_limbs(q.p(), nn);
+      REQUIRE(low_limbs(Q * D, nn) == N, "%s(nn=%zu,dn=%zu): q*d != n mod B^nn", nm[f], nn, dn);
+      if (f == 0) {   // the two overflow limbs: floor(sum_j (q mod B^(nn-j)) * d_j * B^j / B^nn)   (tests/mpn/t-sb_bdiv_q.c)
+        Int T(0); for (size_t j = 0; j < dn; j++) T = T + ref::shl(low_limbs(Q, nn - j) * Int::from_u64(d[j]), 64 * j);
+        Int W = ref::tshr(T, 64 * nn); REQUIRE(Int::from_limbs(w.p(), 2) == W, "mpn_sb_bdiv_q(nn=%zu,dn=%zu): wrong overflow limbs", nn, dn); }
+    } else {
+      size_t qn = nn - dn; Guarded q(qn);
+      uint64_t cy = f == 2 ? mpn_sb_bdiv_qr(q.p(), np.p(), (mp_size_t)nn, d.data(), (mp_size_t)dn, dinv) : mpn_dc_bdiv_qr(q.p(), np.p(), (mp_size_t)nn, d.data(), (mp_size_t)dn, dinv);
+      REQUIRE(q.intact() && np.intact(), "%s(nn=%zu,dn=%zu): wrote outside its areas", nm[f], nn, dn); REQUIRE(d == d0, "%s: divisor modified", nm[f]);
+      Int Q = Int::from_limbs(q.p(), qn), QD = Q * D;
+      REQUIRE(low_limbs(QD, qn) == low_limbs(N, qn), "%s(nn=%zu,dn=%zu): q*d != n mod B^qn", nm[f], nn, dn);
+      Int T = N - QD; uint64_t ecy = T.sgn() < 0; if (ecy) T = T + ref::pow2(64 * nn);
+      REQUIRE(Int::from_limbs(np.p() + qn, dn) == ref::tshr(T, 64 * qn), "%s(nn=%zu,dn=%zu): wrong remainder limbs", nm[f], nn, dn);
+      REQUIRE(cy == ecy, "%s(nn=%zu,dn=%zu): returned borrow %llu, expected %llu", nm[f], nn, dn, (unsigned long long)cy, (unsigned long long)ecy);
+    }
+    return;
+  }
+  // Euclidean families
+  static const char* fn[3][5] = {{"mpn_sb_div_qr", "mpn_sb_div_q", "mpn_sb_divappr_q", "mpn_sb_div_qr", "mpn_sb_divappr_q"},
+                                 {"mpn_dc_div_qr", "mpn_dc_div_q", "mpn_dc_divappr_q", "mpn_dc_div_qr_n", "mpn_dc_divappr_q"},
+                                 {"mpn_inv_div_qr", "mpn_inv_div_q", "mpn_inv_divappr_q", "mpn_inv_div_qr_n", "mpn_inv_divappr_q_n"}};
+  unsigned f = in.pick({3, 3, 3, 2, 2}); const char* name = fn[fam][f];
+  bool is_n = (fam >= 1 && f == 3) || (fam == 2 && f == 4);
+  size_t mind = fam == 0 ? 3 : 6, maxd = fam == 0 ? 90 : fam == 1 ? 900 : 2600;
+  size_t dn = size_near(in, mind, std::max(mind, std::min(cap / 2, maxd)), {DC_DIV_QR_THRESHOLD, DC_DIV_Q_THRESHOLD, DC_DIVAPPR_Q_THRESHOLD, DC_DIVAPPR_Q_N_THRESHOLD, INV_DIV_QR_THRESHOLD, INV_DIVAPPR_Q_N_THRESHOLD, 2 * DC_DIV_QR_THRESHOLD, 2 * DC_DIVAPPR_Q_THRESHOLD});
+  DivCase c = gen_div(in, ci, true, dn, is_n ? 2 * dn : std::max(cap, dn + 8));
+  size_t nn = is_n ? 2 * dn : std::max(c.n.size(), dn + (fam == 0 ? ((f == 2 || f == 4) ? 1 : 0) : 3));   /* (mpn_sb_divappr_q with nn = dn stores a limb at qp[0] although the quotient is the returned limb alone; no caller in the tree passes nn = dn, so that is left out of the domain) */ if (!is_n && in.chance(50)) nn += (size_t)in.range(1, 2);
+  Limbs dl = c.d.m; Guarded np(nn); memset(np.p(), 0, nn * 8); memcpy(np.p(), c.n.m.data(), c.n.m.size() * 8); size_t qn = nn - dn + 1;
+  ci.label(fam == 0 ? "internal:sb" : fam == 1 ? "internal:dc" : "internal:inv"); ci.label(name); ci.nontrivial = true;
+  ci.d("%s nn=%zu dn=%zu ", name, nn, dn); DESC(ci, "n=" + show(c.n, 64) + " d=" + show(c.d, 64));
+  Limbs inv; uint64_t dip = 0;
+  if (fam == 2) { Int X = ref::tdiv(ref::pow2(128 * dn) - Int(1), c.d) - ref::pow2(64 * dn); inv.assign(dn, 0); std::copy(X.m.begin(), X.m.end(), inv.begin()); } else dip = pi1_inverse(dl);
+  Limbs d0 = dl, inv0 = inv; Guarded q(qn - 1), tp(fam == 1 && f == 3 ? 4 * dn + 64 : 0); uint64_t qh;
+  mp_size_t NN = (mp_size_t)nn, DN = (mp_size_t)dn;
+  if (fam == 0) qh = f == 1 ? mpn_sb_div_q(q.p(), np.p(), NN, dl.data(), DN, dip) : (f == 2 || f == 4) ? mpn_sb_divappr_q(q.p(), np.p(), NN, dl.data(), DN, dip) : mpn_sb_div_qr(q.p(), np.p(), NN, dl.data(), DN, dip);
+  else if (fam == 1) qh = f == 0 ? mpn_dc_div_qr(q.p(), np.p(), NN, dl.data(), DN, dip) : f == 1 ? mpn_dc_div_q(q.p(), np.p(), NN, dl.data(), DN, dip) : f == 3 ? mpn_dc_div_qr_n(q.p(), np.p(), dl.data(), DN, dip, tp.p()) : mpn_dc_divappr_q(q.p(), np.p(), NN, dl.data(), DN, dip);
+  else qh = f == 0 ? mpn_inv_div_qr(q.p(), np.p(), NN, dl.data(), DN, inv.data()) : f == 1 ? mpn_inv_div_q(q.p(), np.p(), NN, dl.data(), DN, inv.data()) : f == 2 ? mpn_inv_divappr_q(q.p(), np.p(), NN, dl.data(), DN, inv.data()) : f == 3 ? mpn_inv_div_qr_n(q.p(), np.p(), dl.data(), DN, inv.data()) : mpn_inv_divappr_q_n(q.p(), np.p(), dl.data(), DN, inv.data());
+  REQUIRE(q.intact() && np.intact() && tp.intact(), "%s(nn=%zu,dn=%zu): wrote outside the quotient, dividend or scratch area", name, nn, dn);
+  REQUIRE(dl == d0 && inv == inv0, "%s: divisor or inverse modified", name);
+  Int Q = Int::from_limbs(q.p(), qn - 1) + ref::shl(Int::from_u64(qh), 64 * (qn - 1));
+  bool appr = (f == 2 || f == 4) && !(fam == 1 && f == 3);
+  if (appr) { REQUIRE(Q == c.q || Q == c.q + Int(1), "%s(nn=%zu,dn=%zu): approximate quotient is neither floor(n/d) nor one more (q - floor(n/d) = %s)", name, nn, dn, show(Q - c.q).c_str()); if (!(Q == c.q)) ci.label("internal:appr_q_plus_1"); }
+  else REQUIRE(Q == c.q, "%s(nn=%zu,dn=%zu): wrong quotient", name, nn, dn);
+  if (f == 0 || f == 3) REQUIRE(Int::from_limbs(np.p(), dn) == c.r, "%s(nn=%zu,dn=%zu): wrong remainder", name, nn, dn);
+}
+
 // ---- mpz layer ----------------------------------------------------------------------
 enum Rnd { T, F, C };
 static void expect_div(Rnd rnd, const Int& n, const Int& d, Int& q, Int& r) { if (rnd == T) ref::tdivrem(n, d, q, r); else if (rnd == F) ref::fdivrem(n, d, q, r); else ref::cdivrem(n, d, q, r); }
@@ -400,7 +487,8 @@ static void case_huge(ByteSource& in, CaseInfo& ci) {
 }
 static void check(ByteSource& in, CaseInfo& ci) {
   if (in.scale >= 90 && (in.u8() ^ 0xA5u) < 2 && in.chance(64)) { case_huge(in, ci); return; }   // ~1 in 512 of the top size classes; never for an exhausted (all-zero) stream
-  switch (in.pick({6, 2, 4, 1, 7, 4, 3, 6, 4})) {
+  switch (in.pick({6, 2, 4, 1, 7, 4, 3, 6, 4, 5})) {
+    case 9: case_internal(in, ci); break;
     case 8: case_tdiv_q(in, ci); break;
     case 0: case_tdiv_qr(in, ci); break; case 1: case_divrem(in, ci); break; case 2: case_divrem_1(in, ci); break; case 3: case_by3(in, ci); break;
     case 4: case_mpz_div(in, ci); break; case 5: case_mpz_div_ui(in, ci); break; case 6: case_mpz_2exp(in, ci); break; default: case_mpz_misc(in, ci); break;
@@ -408,7 +496,7 @@ static void check(ByteSource& in, CaseInfo& ci) {
 }
 namespace eng {
 PropDef g_prop = {"C02",
-  "Cases: one call of mpn_tdiv_qr (qxn=0, top divisor limb non-zero, dividend may have high zero limbs), mpn_tdiv_q (quotient only), mpn_divrem (normalised divisor, qxn 0..3), mpn_divrem_1 (qxn 0..3, n=0 allowed, in place), mpn_mod_1, mpn_divexact_by3c, or of the mpz tdiv/fdiv/cdiv q/r/qr functions (all sign combinations, outputs aliasing inputs), their _ui and _2exp forms, mpz_mod(_ui), mpz_divexact(_ui) on exact inputs only, mpz_divisible_*/congruent_* incl. d=0. A rare class (~1 in 5000) divides by divisors around INV_DIVAPPR_Q_THRESHOLD (14326 limbs in the pinned table). Operands by backward construction n=q*d+r: divisor sizes around the schoolbook/divide-and-conquer/inverse thresholds, quotient shapes (short, nn~2dn, long), quotient limbs all-ones, r in {0,1,d-1,random}, dividends whose leading limbs (or several windows) equal the divisor's, products q*d straddling a power of two (n = 2^K - t with all-ones leading limbs, d = ceil(2^K/m)), divisor classes (power of two, B^k-1, top limb 1, normalised, single-limb classes). Oracle: refint: n=q*d+r, |r|<|d|, rounding direction and remainder sign per the manual, _ui return = |r|. Non-trivial: nn>dn or dn>=2 (mpn) / operand >= 2 limbs (mpz). Distinct = hash of all decoded choices.",
-  check, nullptr, {"q_limb_allones", "r_eq_d_minus_1", "r_zero", "unnormalised_d", "short_quotient", "n_prefix_equals_d", "dn_ge_dc_div_qr", "dn_ge_inv_div_qr", "sign:--", "sign:-+", "sign:+-", "d_zero", "divrem_qxn", "mpn_tdiv_q", "qd_straddles_power_of_two", "tdiv_q:short_quotient_branch", "huge_inv_divappr"}, nullptr, sweep_count, sweep_item,
+  "Cases: one call of mpn_tdiv_qr (qxn=0, top divisor limb non-zero, dividend may have high zero limbs), mpn_tdiv_q (quotient only), mpn_divrem (normalised divisor, qxn 0..3), mpn_divrem_1 (qxn 0..3, n=0 allowed, in place), mpn_mod_1, mpn_divexact_by3c, or of the mpz tdiv/fdiv/cdiv q/r/qr functions (all sign combinations, outputs aliasing inputs), their _ui and _2exp forms, mpz_mod(_ui), mpz_divexact(_ui) on exact inputs only, mpz_divisible_*/congruent_* incl. d=0. The internal routines declared in mpir.h are also called directly in the domains of the tree's own tests (mpn_{sb,dc,inv}_div_{q,qr}, *_divappr_q giving floor(n/d) or one more, the _n forms, mpn_{sb,dc}_bdiv_{q,qr} with q*d=n mod B^k and the documented remainder/borrow, mpn_invert = floor((B^2n-1)/a)-B^n). A rare class (~1 in 5000) divides by divisors around INV_DIVAPPR_Q_THRESHOLD (14326 limbs in the pinned table). Operands by backward construction n=q*d+r: divisor sizes around the schoolbook/divide-and-conquer/inverse thresholds, quotient shapes (short, nn~2dn, long), quotient limbs all-ones, r in {0,1,d-1,random}, dividends whose leading limbs (or several windows) equal the divisor's, products q*d straddling a power of two (n = 2^K - t with all-ones leading limbs, d = ceil(2^K/m)), divisor classes (power of two, B^k-1, top limb 1, normalised, single-limb classes). Oracle: refint: n=q*d+r, |r|<|d|, rounding direction and remainder sign per the manual, _ui return = |r|. Non-trivial: nn>dn or dn>=2 (mpn) / operand >= 2 limbs (mpz). Distinct = hash of all decoded choices.",
+  check, nullptr, {"q_limb_allones", "r_eq_d_minus_1", "r_zero", "unnormalised_d", "short_quotient", "n_prefix_equals_d", "dn_ge_dc_div_qr", "dn_ge_inv_div_qr", "sign:--", "sign:-+", "sign:+-", "d_zero", "divrem_qxn", "mpn_tdiv_q", "qd_straddles_power_of_two", "tdiv_q:short_quotient_branch", "huge_inv_divappr", "internal:sb", "internal:dc", "internal:inv", "internal:hensel", "internal:mpn_invert"}, nullptr, sweep_count, sweep_item,
   "every (n,d) in [-130,130]^2 through mpz_{t,f,c}div_{q,r,qr}, their _ui forms (d>0), the _2exp forms (d a power of two), mpz_mod, mpz_divexact(_ui) when exact, mpz_divisible_p/_ui_p/_2exp_p and mpz_congruent_p/_ui_p for c in [-3,3], d = 0 included where the manual defines it; plus every dividend of up to 4 limbs and divisor of up to 3 limbs with limbs from {0,1,2^63-1,2^63,2^64-2,2^64-1} (278640 pairs x 4 sign combinations) through the q/r/qr, _ui, _2exp, mod, divisible and divexact functions"};
 }
